@@ -312,6 +312,30 @@ def judge_exchanges(ctx, lab, desc, expect, reported=None, algs=None):
                               "carried (and whose signature was verified)" % i,
                               dict(case=desc, exchange=i, reported=reported[i], shown=ks))
         last_ks = ks
+    # the session id at its point of use: every key / IV / MAC key either side derived must be the RFC 4253
+    # section 7.2 value computed from that exchange's K and H and the *first* exchange hash
+    for side in ("c", "s"):
+        calls = lab.kh.calls[side]
+        for d in lab.deriv.calls[side]:
+            i = d["exchange"]
+            if not (0 <= i < len(calls)):
+                continue
+            want = kexlab.rfc_derive(lab.kex, calls[i]["K"], calls[i]["H"], d["letter"], sid0, d["n"])
+            ctx.count("key_derivations_checked")
+            if i > 0:
+                ctx.count("rekey_key_derivations_checked_against_first_session_id")
+            if d["out"] != want:
+                alt = kexlab.rfc_derive(lab.kex, calls[i]["K"], calls[i]["H"], d["letter"], calls[i]["H"], d["n"])
+                if i > 0 and d["out"] == alt:
+                    sigtxt = "keys derived after a rekey use the new exchange hash in place of the first session id"
+                elif i > 0:
+                    sigtxt = "keys derived after a rekey differ from the RFC 4253 7.2 derivation with the first session id"
+                else:
+                    sigtxt = "keys derived in the first exchange differ from the RFC 4253 7.2 derivation"
+                ctx.violation(sigtxt, "%s side, exchange %d, key '%s' (%d bytes) is not HASH(K || H || X || first H) ..."
+                              % ("client" if side == "c" else "server", i, d["letter"], d["n"]),
+                              dict(case=desc, side=side, exchange=i, letter=d["letter"], got=d["out"], want=want))
+                break
     ctx.count("remote_server_key_checks")
     try:
         shown = lab.tc.get_remote_server_key().asbytes()
@@ -582,6 +606,8 @@ def run(ctx):
                         continue
                     corrupt_case(ctx, kex, alg, field, ex, sample=n < 2)
                     n += 1
+    ctx.require("key_derivations_checked", 600)
+    ctx.require("rekey_key_derivations_checked_against_first_session_id", 300)
     ctx.require("multikey.sessions", 15)
     ctx.require("exchanges_with_changed_host_key", 15)
     ctx.require("remote_server_key_checks_per_exchange", 40)
